@@ -350,6 +350,10 @@ def _clean_text(tree):
             q[2] = {k: ([fix(x) for x in v] if isinstance(v, list) else fix(v)) for k, v in q[2].items()}
         if q[0].upper() == "TZID" and tree["c"].upper() == "VTIMEZONE":
             continue
+        # calendar dates span 0001-9999: a deterministic share of the date / floating / UTC values is moved to early/late years
+        if spec["k"] in ("date", "naive", "utc") and (spec["v"][1] + spec["v"][2]) % 4 == 0:
+            spec = dict(spec, v=[[1, 99, 753, 999, 1000, 1601, 9999][(spec["v"][2] + spec["v"][0]) % 7]] + list(spec["v"][1:]))
+            q[1] = spec
         ps.append(q)
     t["p"] = ps
     t["s"] = [_clean_text(s) for s in tree["s"]]
@@ -394,7 +398,7 @@ def cases(draw):
 
 _CANON = {
     "text": {"k": "text", "v": "Some text; with, punctuation: ok"}, "int": {"k": "int", "v": 3}, "uri": {"k": "uri", "v": "http://example.com/x?a=b"},
-    "caladdr": {"k": "caladdr", "v": "mailto:a@example.com"}, "date": {"k": "date", "v": [2021, 3, 4]},
+    "caladdr": {"k": "caladdr", "v": "mailto:a@example.com"}, "date": {"k": "date", "v": [999, 3, 4]},
     "utc": {"k": "utc", "v": [2021, 3, 4, 5, 6, 7]}, "td": {"k": "td", "d": 1, "s": 3600},
     "period": {"k": "period", "start": {"k": "utc", "v": [2021, 3, 4, 5, 0, 0]}, "dur": {"k": "td", "d": 0, "s": 3600}},
     "recur": {"k": "recur", "v": {"FREQ": "WEEKLY", "BYDAY": ["MO", "2FR"], "COUNT": 4}}, "geo": {"k": "geo", "v": [37.386013, -122.082932]},
@@ -403,7 +407,7 @@ _CANON = {
     "dates-date": {"k": "dates", "v": [{"k": "date", "v": [2021, 3, 4]}, {"k": "date", "v": [2021, 3, 5]}]},
     "periods": {"k": "periods", "v": [{"k": "period", "start": {"k": "zoned", "v": [2021, 3, 4, 5, 0, 0], "tz": "America/New_York"}, "dur": {"k": "td", "d": 0, "s": 1800}}]},
 }
-_DT_VARIANTS = [{"k": "naive", "v": [2021, 3, 4, 5, 6, 7]}, {"k": "utc", "v": [2021, 3, 4, 5, 6, 7]}, {"k": "zoned", "v": [2021, 3, 4, 5, 6, 7], "tz": "America/New_York"}]
+_DT_VARIANTS = [{"k": "naive", "v": [753, 4, 21, 5, 6, 7]}, {"k": "naive", "v": [2021, 3, 4, 5, 6, 7]}, {"k": "utc", "v": [2021, 3, 4, 5, 6, 7]}, {"k": "zoned", "v": [2021, 3, 4, 5, 6, 7], "tz": "America/New_York"}]
 
 
 def _sweep_cases():
